@@ -2,8 +2,8 @@
 from gcv import typestate
 
 
-def run(chk, tier):
-    prog, T = typestate.engine("default")
+def run_config(chk, tier, cfgname):
+    prog, T = typestate.engine(cfgname)
     chk.explain("C06: the four explicit barriers are run through Mutation's public API on every (phase, parent "
                 "colour, parent needs-trace, child colour/liveness, None/alias argument) state and must satisfy the "
                 "tri-colour post-condition (no Black parent with a condemned child; general forms keep their "
@@ -23,3 +23,17 @@ def run(chk, tier):
                                                        if r.pre["path"] in ("Arena::mutate_root", "Arena::map_root", "Arena::try_map_root")}
     chk.floor("adoption-path-instances", len(paths), 11)
     typestate.report_automaton(chk, ["PANIC", "S7", "S2", "S4"])
+
+
+def run(chk, tier):
+    cfgs = typestate.configs(tier)
+    chk.extra["feature_configs"] = cfgs
+    for c in cfgs:
+        chk.cfg = c
+        n_expl = len(chk.explanation)
+        nd = len(chk.not_decided)
+        run_config(chk, tier, c)
+        if c != cfgs[0]:
+            del chk.explanation[n_expl:]
+            del chk.not_decided[nd:]
+    chk.cfg = None
